@@ -1036,7 +1036,10 @@ class Engine:
         raise Unsupported("mutation of a temporary container", node)
 
     def dict_store(self, d: VDict, k, v: V, st: State, node=None) -> VDict:
-        vz = self.coerce(v, d.ty.args[1], st, node).z
+        if d.ty.args[1].kind == "set":
+            vz = self.set_of(v, st, node).arr  # dict of sets: the stored value is the set's characteristic array (a snapshot: later in-place updates of the set are not tracked)
+        else:
+            vz = self.coerce(v, d.ty.args[1], st, node).z
         if d.pos is None:
             return VDict(z3.Store(d.dom, k, True), z3.Store(d.val, k, vz), d.ty)
         present = d.dom[k]
